@@ -290,10 +290,11 @@ def empty(which: int) -> bool:
 
 _WEAK_QUICK = [s for s in pipeline.QUICK_SLICES
                if MODELS[BASES[pipeline.slice_of(s)[0]][0]][0] in (
-                   'shapes', 'uni', 'loose', 'coll')]
+                   'shapes', 'uni', 'loose', 'coll')] + \
+    pipeline.C17_EXTRA_SLICES
 
 CONDITIONS = [
-    {'fn': 'weak', 'slices': pipeline.ALL_SLICES,
+    {'fn': 'weak', 'slices': pipeline.ALL_SLICES + pipeline.C17_EXTRA_SLICES,
      'quick_slices': _WEAK_QUICK, 'quick': 110, 'thorough': 300,
      'bound': 'weak claim on the whole single-mutation document space of '
               'vlib/pipeline.py (quick: 4 models): every RecognitionError '
